@@ -1142,8 +1142,21 @@ func sameSlotLoad(a, b ssa.Value) bool {
 	if !ok1 || !ok2 || la.Op != token.MUL || lb.Op != token.MUL {
 		return false
 	}
-	ia, ok1 := la.X.(*ssa.IndexAddr)
-	ib, ok2 := lb.X.(*ssa.IndexAddr)
+	// the same field path below the element (list[i].f.g)
+	ax, bx := la.X, lb.X
+	for {
+		fa, oka := ax.(*ssa.FieldAddr)
+		fb, okb := bx.(*ssa.FieldAddr)
+		if !oka && !okb {
+			break
+		}
+		if !oka || !okb || fa.Field != fb.Field {
+			return false
+		}
+		ax, bx = fa.X, fb.X
+	}
+	ia, ok1 := ax.(*ssa.IndexAddr)
+	ib, ok2 := bx.(*ssa.IndexAddr)
 	if !ok1 || !ok2 {
 		return false
 	}
@@ -1165,7 +1178,15 @@ func sameSlotLoad(a, b ssa.Value) bool {
 		if !ok {
 			return
 		}
-		if x, ok := st.Addr.(*ssa.IndexAddr); ok && x.X == ia.X {
+		ad := st.Addr
+		for {
+			if fa, ok := ad.(*ssa.FieldAddr); ok {
+				ad = fa.X
+				continue
+			}
+			break
+		}
+		if x, ok := ad.(*ssa.IndexAddr); ok && x.X == ia.X {
 			clean = false
 		}
 	})
